@@ -374,6 +374,18 @@ def run(ctx):
     )
     execute(ctx, cases_for(ctx, not ctx.quick))
     _SEEN.clear()
+    # the same calls with every context accepted under Deflated Explicit VR Little Endian and the peer's reply data
+    # sets encoded accordingly: what the caller is handed must not depend on the negotiated syntax
+    R.set_syntax(True)
+    try:
+        # (a zero-length data set is left out: it is no zlib stream at all, which is the decoder's subject, not this call's)
+        plain = lambda c: not any("empty" in m for m in c[1])  # noqa: E731
+        sub = [c for c in single_cases() if plain(c)]
+        sub += [c for i, c in enumerate(cases_for(ctx, False)) if i % 7 == 0 and c[0] in R.MULTI and plain(c)][: ctx.n(600, 6000)]
+        execute(ctx, sub)
+    finally:
+        R.set_syntax(False)
+    _SEEN.clear()
     ctx.exhaustive = False
     ctx.note(
         "lock sampled by non-blocking acquire from the harness thread at every suspension and at the end; "
